@@ -218,6 +218,37 @@ type opGen struct {
 	excluded map[string]bool
 	maxDepth int
 	nAlias   int
+
+	// sequence mode: every argument becomes an operation variable (values are drawn per
+	// request), unstable units are not selected, resolver fields are preferred
+	varMode bool
+	vars    []varSpec
+	skip    func(unitKey string) bool
+}
+
+// varSpec is one operation variable of a generated operation.
+type varSpec struct {
+	Name string
+	Arg  string // argument it feeds
+	Type *ast.Type
+}
+
+// varArgs renders the arguments of f with one fresh variable each.
+func (g *opGen) varArgs(f *ast.FieldDefinition) string {
+	var parts []string
+	for _, a := range f.Arguments {
+		required := a.Type.NonNull && a.DefaultValue == nil
+		if !required && g.c.Int(3, "optarg") == 1 {
+			continue
+		}
+		v := varSpec{Name: fmt.Sprintf("v%d", len(g.vars)+1), Arg: a.Name, Type: a.Type}
+		g.vars = append(g.vars, v)
+		parts = append(parts, a.Name+": $"+v.Name)
+	}
+	if len(parts) == 0 {
+		return ""
+	}
+	return "(" + strings.Join(parts, ", ") + ")"
 }
 
 func (g *opGen) fresh() string { g.nAlias++; return fmt.Sprintf("a%d", g.nAlias) }
@@ -235,6 +266,9 @@ func (g *opGen) selectable(def *ast.Definition, leavesOnly bool) []*ast.FieldDef
 		if u := g.w.units[def.Name+"."+f.Name]; u != nil {
 			if ok, finding := g.usable(u.Key); !ok && finding == "" {
 				continue // the mock does not implement it / probe broken for an unrecorded reason
+			}
+			if g.skip != nil && g.skip(u.Key) {
+				continue
 			}
 		}
 		if leavesOnly && !isLeafType(g.w, f.Type) {
@@ -333,6 +367,17 @@ func (g *opGen) selection(def *ast.Definition, depth int, u used, anc ancestry) 
 		return &node{Frag: true, On: pt.Name, Kids: kids, scope: pt.Name}
 	}
 	fs := g.selectable(def, depth >= g.maxDepth)
+	if g.varMode && g.c.Int(2, "resolver?") == 0 {
+		var rs []*ast.FieldDefinition
+		for _, f := range fs {
+			if u := g.w.units[def.Name+"."+f.Name]; u != nil && (u.Kind == unitResolver || (u.Kind == unitRoot && len(f.Arguments) > 0)) {
+				rs = append(rs, f)
+			}
+		}
+		if len(rs) > 0 {
+			fs = rs
+		}
+	}
 	if len(fs) == 0 {
 		return nil
 	}
@@ -348,7 +393,12 @@ func (g *opGen) field(def *ast.Definition, f *ast.FieldDefinition, depth int, u 
 	if g.steerAway(def, f, anc) {
 		return nil
 	}
-	k := &node{Name: f.Name, Args: genArgs(g.c, g.w, f)}
+	k := &node{Name: f.Name}
+	if g.varMode {
+		k.Args = g.varArgs(f)
+	} else {
+		k.Args = genArgs(g.c, g.w, f)
+	}
 	sig := k.Name + k.Args
 	if prev, ok := u[f.Name]; ok {
 		if prev == sig {
